@@ -346,7 +346,8 @@ func (x *Exec) loopSpec(ord int) *LoopSpec {
 
 func (x *Exec) evalClause(s *State, c *Clause) *Term {
 	x.clauseInfo = append(x.clauseInfo, c.Info)
-	defer func() { x.clauseInfo = x.clauseInfo[:len(x.clauseInfo)-1] }()
+	x.clauseDepth++
+	defer func() { x.clauseInfo = x.clauseInfo[:len(x.clauseInfo)-1]; x.clauseDepth-- }()
 	return x.evalCond(s, c.Expr)
 }
 
@@ -649,7 +650,8 @@ func (x *Exec) cutLoop(s *State, ord int, label string, spec *LoopSpec, pos toke
 
 func (x *Exec) evalClauseVal(s *State, c *Clause) *Term {
 	x.clauseInfo = append(x.clauseInfo, c.Info)
-	defer func() { x.clauseInfo = x.clauseInfo[:len(x.clauseInfo)-1] }()
+	x.clauseDepth++
+	defer func() { x.clauseInfo = x.clauseInfo[:len(x.clauseInfo)-1]; x.clauseDepth-- }()
 	return x.eval(s, c.Expr)
 }
 
